@@ -389,6 +389,19 @@ Definition lit_ok (v : val) (t : ty) : bool :=
   | _, _ => false
   end.
 
+(* IN lists: the hashed IN (HashInTuple) takes its comparison type from the left operand and the FIRST element only, so
+   lists mixing integer and decimal operands are outside the fragment the model predicts *)
+Definition tcls (t : ty) : nat := match t with TyNull => 0 | TyBool | TyInt => 1 | TyDec => 2 | TyStr => 3 end.
+Fixpoint same_cls (c : nat) (ts : list ty) : bool :=
+  match ts with
+  | [] => true
+  | t :: r =>
+      let k := tcls t in
+      if Nat.eqb k 0 then same_cls c r
+      else if Nat.eqb c 0 then same_cls k r
+      else Nat.eqb k c && same_cls c r
+  end.
+
 Fixpoint wt (e : expr) : bool :=
   match e with
   | Lit v t => lit_ok v t
@@ -399,7 +412,7 @@ Fixpoint wt (e : expr) : bool :=
   | And a b | Or a b | Xor a b => wt a && wt b && num_ty (ty_of a) && num_ty (ty_of b)
   | Not a | IsTrue _ a => wt a && num_ty (ty_of a)
   | IsNull a => wt a
-  | In a l => wt a && forallb wt l && forallb (fun x => compat (ty_of a) (ty_of x)) l
+  | In a l => wt a && forallb wt l && same_cls 0 (ty_of a :: map ty_of l)
   | Between a b c => wt a && wt b && wt c && compat (ty_of a) (ty_of b) && compat (ty_of a) (ty_of c)
   | Case c t e =>
       wt c && wt t && wt e && num_ty (ty_of c) &&
